@@ -26,23 +26,31 @@
 EXTENDS Integers, Sequences, FiniteSets, TLC, SequencesExt
 
 PathName == <<
-  "p/charts/s1/templates/NOTES.txt",    \*  1
-  "p/charts/s1/templates/_h.tpl",       \*  2
-  "p/charts/s1/templates/a.yaml",       \*  3
-  "p/charts/s1/templates/b.yaml",       \*  4
-  "p/charts/s2/templates/NOTES.txt",    \*  5
-  "p/charts/s2/templates/_h.tpl",       \*  6
-  "p/charts/s2/templates/a.yaml",       \*  7
-  "p/templates/NOTES.txt",              \*  8
-  "p/templates/_h.tpl",                 \*  9
-  "p/templates/_z.tpl",                 \* 10
-  "p/templates/a.yaml",                 \* 11
-  "p/templates/b.yaml",                 \* 12
-  "p/templates/c.yaml" >>               \* 13
-PChart == <<"s1", "s1", "s1", "s1", "s2", "s2", "s2", "p", "p", "p", "p", "p", "p">>
-PType  == <<"notes", "part", "tpl", "tpl", "notes", "part", "tpl", "notes", "part", "part", "tpl", "tpl", "tpl">>
-PSlash == <<4, 4, 4, 4, 4, 4, 4, 2, 2, 2, 2, 2, 2>>     \* strings.Count(name, "/")
-ParentNotes == 8                                         \* path.Join(ch.Name(), "templates", "NOTES.txt")
+  "p/charts/s1/templates/A.yaml",           \*  1  (differs from 4 only in letter case)
+  "p/charts/s1/templates/NOTES.txt",        \*  2
+  "p/charts/s1/templates/_h.tpl",           \*  3
+  "p/charts/s1/templates/a.yaml",           \*  4
+  "p/charts/s1/templates/b.yaml",           \*  5
+  "p/charts/s1/templates/sub/NOTES.txt",    \*  6  (a NOTES.txt below a sub-directory of templates/)
+  "p/charts/s2/templates/NOTES.txt",        \*  7
+  "p/charts/s2/templates/_h.tpl",           \*  8
+  "p/charts/s2/templates/a.yaml",           \*  9
+  "p/templates/A.yaml",                     \* 10  (differs from 14 only in letter case)
+  "p/templates/NOTES.txt",                  \* 11
+  "p/templates/_h.tpl",                     \* 12
+  "p/templates/_z.tpl",                     \* 13
+  "p/templates/a.yaml",                     \* 14
+  "p/templates/b.yaml",                     \* 15
+  "p/templates/c.yaml",                     \* 16
+  "p/templates/sub/NOTES.txt" >>            \* 17
+\* names for the ranks
+S1A == 1   S1N == 2   S1H == 3   S1a == 4   S1b == 5   S1SN == 6
+S2N == 7   S2H == 8   S2a == 9
+PA == 10   PN == 11   PH == 12   PZ == 13   Pa == 14   Pb == 15   Pc == 16   PSN == 17
+PChart == <<"s1", "s1", "s1", "s1", "s1", "s1", "s2", "s2", "s2", "p", "p", "p", "p", "p", "p", "p", "p">>
+PType  == <<"tpl", "notes", "part", "tpl", "tpl", "notes", "notes", "part", "tpl", "tpl", "notes", "part", "part", "tpl", "tpl", "tpl", "notes">>
+PSlash == <<4, 4, 4, 4, 4, 5, 4, 4, 4, 2, 2, 2, 2, 2, 2, 2, 3>>     \* strings.Count(name, "/")
+ParentNotes == PN                                        \* path.Join(ch.Name(), "templates", "NOTES.txt")
 ChartRank(c) == CASE c = "p" -> 0 [] c = "s1" -> 1 [] c = "s2" -> 2 [] OTHER -> 9
 
 \* Range(f) and FlattenSeq(ss) come from Functions / SequencesExt
@@ -189,7 +197,11 @@ ExecDocs(inp, parseOrder) ==
   FlattenSeq([j \in DOMAIN fo |-> [i \in DOMAIN FileOf(inp, fo[j]).docs |-> <<fo[j], i>>]])
 PayMap(inp, parseOrder, w) == PayFold(inp, ExecDocs(inp, parseOrder), w, InitState, <<>>)
 
-NoteText(p) == "N-" \o PChart[p]
+\* the text of a NOTES.txt: the ones below a sub-directory look like YAML (parent) / are text that is NOT YAML (s1):
+\* renderResources takes every rendered file whose name ends in NOTES.txt out of the files before they are sorted
+NoteText(p) == CASE p = PSN  -> "status: N-p-sub"
+                 [] p = S1SN -> "N-s1-sub: [not yaml"
+                 [] OTHER    -> "N-" \o PChart[p]
 RECURSIVE JoinNotes(_)
 JoinNotes(s) == IF s = <<>> THEN "" ELSE IF Len(s) = 1 THEN NoteText(s[1]) ELSE NoteText(s[1]) \o "\n" \o JoinNotes(Tail(s))
 NotesPassing(inp) == {p \in Range(inp.notes) : inp.subNotes \/ p = ParentNotes}
